@@ -43,6 +43,8 @@ var cliFiles = map[string]string{
 	"annot.txt": "ann1:A,B\nann2:C,D\n",
 	"map.txt":   "A\tTa\nB\tTb\nC\tTc\nD\tTd\nE\tTe\n",
 	"tips.txt":  "A\nB\n",
+	"chainmap.txt": "A\tB\nB\tC\nC\tD\nD\tE\nE\tA\n",
+	"chainmap2.txt": "ab\tcd\ncd\troot\nroot\tab\nA\tB\nB\tA\n",
 	"tipsx.txt": "A\nB\nC\nD\nE\nZ\nY\nX\n",
 	"groups.txt": "A,A2,A3\nC,C2\n",
 	"br.txt":    "ab\n",
@@ -133,6 +135,9 @@ func cliTable() []cliEntry {
 		cliE("reformat-nexus-translate", "reformat nexus -i @/multi.nw --translate"),
 		cliE("reformat-phyloxml", "reformat phyloxml -i @/multi.nw"),
 		cliE("rename-map", "rename -i @/t.nw -m @/map.txt"),
+		cliE("rename-chain", "rename -i @/t.nw -m @/chainmap.txt"),
+		cliE("rename-chain-internal", "rename -i @/named.nw -m @/chainmap2.txt --internal"),
+		cliE("rename-chain-revert", "rename -i @/t.nw -m @/chainmap.txt -r"),
 		cliE("rename-auto", "rename -i @/multi.nw -a -l 3 -m @/mapout.txt", "@/mapout.txt"),
 		cliE("rename-regexp", "rename -i @/multi.nw -e ([A-C]) -b T$1 -m @/mapout.txt", "@/mapout.txt"),
 		cliE("rename-internal", "rename -i @/named.nw --internal --tips=false -a -m @/mapout.txt", "@/mapout.txt"),
@@ -161,6 +166,15 @@ func cliTable() []cliEntry {
 		cliE("unroot", "unroot -i @/r.nw"),
 		cliE("version", "version"),
 	}
+	// random commands without --seed (the clock seeds the generator) and with a negative seed
+	t = append(t,
+		cliE("shuffletips-noseed", "shuffletips -i @/t8.nw"),
+		cliE("generate-yuletree-noseed", "generate yuletree -l 6"),
+		cliE("resolve-noseed", "resolve -i @/poly.nw"),
+		cliE("shuffletips-negseed", "shuffletips -i @/t8.nw --seed -2"),
+		cliE("generate-uniformtree-negseed", "generate uniformtree -l 6 --seed -7"),
+		cliE("brlen-setrand-negseed", "brlen setrand -i @/t.nw --seed -3"),
+	)
 	// the same through standard input and other input formats
 	t = append(t,
 		cliEntry{Name: "stats-stdin", Args: []string{"stats"}, Stdin: cliT5 + cliT5b, Files: cliFiles},
